@@ -228,6 +228,12 @@ class MemIO:
     def read_chunk(self, key, coords):
         from neuroglancer_scripts.accessor import DataAccessError
         assert self.validate_chunk_coords(key, coords)
+        kind = getattr(self, "unreadable", {}).get((key, tuple(int(c) for c in coords)))
+        if kind == "AccessErr":        # the accessor cannot fetch the chunk
+            raise DataAccessError(f"unreadable chunk {key} {coords}")
+        if kind == "FormatErr":        # the decoder rejects the bytes
+            from neuroglancer_scripts.chunk_encoding import InvalidFormatError
+            raise InvalidFormatError(f"undecodable chunk {key} {coords}")
         try:
             return self.store[(key, tuple(int(c) for c in coords))].copy()
         except KeyError:
@@ -319,13 +325,17 @@ def get_ds(method):
     return downscaling.get_downscaler(method, None, {})
 
 
-def run_transition(info, idx, method, vol, byte):
+def run_transition(info, idx, method, vol, byte, unreadable=None):
     """Run the real compute_dyadic_downscaling for transition idx -> idx+1 through
     MemIO with np.empty poisoned by `byte`.  Returns (outcome, io); on success the
-    outcome carries the list of written chunks in write order."""
+    outcome carries the list of written chunks in write order.  `unreadable` maps
+    chunk coordinates of the source scale to "AccessErr" / "FormatErr": reading
+    them raises DataAccessError / InvalidFormatError."""
     from neuroglancer_scripts import dyadic_pyramid
     io = MemIO(copy.deepcopy(info))
     io.fill_level(info["scales"][idx]["key"], vol)
+    if unreadable:
+        io.unreadable = {(info["scales"][idx]["key"], tuple(co)): kind for co, kind in unreadable.items()}
     order = []
     orig = io.write_chunk
 
